@@ -74,7 +74,9 @@ func Read(r io.Reader) (*Font, error) {
 		return nil, fmt.Errorf("sfnt header: %w", err)
 	}
 
-	if !(dir.Has("glyf", "loca") || dir.Has("CFF ")) {
+	// The "glyf" table is empty, if all glyphs are blank.
+	_, hasGlyf := dir.Toc["glyf"]
+	if !(hasGlyf && dir.Has("loca") || dir.Has("CFF ")) {
 		if dir.Has("CFF2") {
 			return nil, &parser.NotSupportedError{
 				SubSystem: "sfnt",
